@@ -114,6 +114,16 @@ fn dt_dur(rng: &mut Rng) -> Vec<i128> {
 pub fn generate(rng: &mut Rng, thorough: bool) -> Vec<String> {
     let mut v = Vec::new();
     let n = if thorough { 300_000 } else { 40_000 };
+    // PlainDate::to_plain_date_time / PlainDateTime::from_date_and_time: the date and the time as given, range-checked
+    // (the first representable day admits no midnight)
+    for d in [-100_000_001i128, -100_000_000, 100_000_000, 0, 19_000] {
+        let (y, m, dd) = ymd_of(d);
+        for t in ["0 0 0 0 0 0", "0 0 0 0 0 1", "23 59 59 999 999 999", "12 0 0 0 0 0"] {
+            v.push(format!("pd_to_pdt {y} {m} {dd} {t}"));
+            v.push(format!("pdt_from_dat {y} {m} {dd} {t}"));
+        }
+        v.push(format!("pd_to_pdt {y} {m} {dd} -"));
+    }
     for k in 0..n {
         let d1 = pick_day(rng);
         let t1 = pick_tod(rng);
